@@ -581,4 +581,32 @@ theorem wordReCore_spec (I B : List Char) (mn mx : Nat) (hmn : 1 ≤ mn) (hmx : 
 
 end
 
+
+/-! ### what `Word.__init__` establishes -/
+
+theorem mkWord_facts (a : WordArgs) (w : Word) (h : mkWord a = some w) :
+    w.initSet = initSetOf a ∧ w.bodySet = bodySetOf a ∧
+    w.minLen = effMin a ∧ w.maxLen = maxLenOf a ∧
+    1 ≤ effMin a ∧ (0 < effMax a → effMin a ≤ effMax a) ∧ w.asKeyword = a.asKeyword ∧
+    w.maxSpecified = decide (a.max > 0) ∧ w.re = reOf a := by
+  unfold mkWord at h
+  split at h
+  · cases h
+  · split at h
+    · cases h
+    · split at h
+      · cases h
+      · rename_i h1 h2 h3
+        injection h with h
+        subst h
+        refine ⟨rfl, rfl, rfl, rfl, ?_, ?_, rfl, rfl, rfl⟩
+        · unfold effMin; split <;> omega
+        · intro hpos
+          unfold effMin effMax at *
+          by_cases he : a.exact > 0
+          · simp [he]
+          · simp only [he, if_false] at hpos ⊢
+            simp only [Bool.and_eq_true, decide_eq_true_eq, not_and, Nat.not_lt] at h3
+            have := h3 hpos; omega
+
 end PP.WordPaths
